@@ -305,6 +305,71 @@ def g_rpc_tcp_args_cut(repo):
     ok = bool(one[0]) and not cut[0] and cut[1] == one[0]
     return ok, info
 
+
+# ----------------------------------------------------------------------------- C14: DNS end to end (bounded stand-in)
+def dns_expected(q, dst_ip):
+    """the response the statement of C14 asks for, or None (not answered); q = (id, opcode, rd, [(name_bytes, qtype, qclass)], extra_tail)"""
+    qid, opcode, rd, qs, tail = q
+    if tail or not qs or any(t != 1 or c != 1 for _, t, c in qs):
+        return None
+    flags = 0x8000 | (opcode << 11) | 0x0400 | (rd << 8)
+    out = struct.pack('!HHHHHH', qid, flags, len(qs), len(qs), 0, 0)
+    for name, t, c in qs:
+        out += name + struct.pack('!HH', t, c)
+    for name, t, c in qs:
+        out += name + struct.pack('!HHIH', 1, 1, 43200, 4) + socket.inet_aton(dst_ip)
+    return out
+
+def dns_query_bytes(q, truncate=0):
+    qid, opcode, rd, qs, tail = q
+    b = struct.pack('!HHHHHH', qid, (opcode << 11) | (rd << 8), len(qs), 0, 0, 0)
+    for name, t, c in qs:
+        b += name + struct.pack('!HH', t, c)
+    b += tail
+    return b[:len(b) - truncate] if truncate else b
+
+def g_c14_dns(repo, n, seed):
+    """BOUNDED stand-in for the end-to-end clauses of C14 that the contracts do not reach yet (every IN/A-only query IS
+    answered; question section echoed byte for byte; one A record per question; nothing for non-IN/A or truncated
+    messages): n pseudo-random queries over UDP/IPv4 on the hook binary, compared with the response written from
+    the statement.  Returns [(ok, info)]."""
+    import random
+    rnd = random.Random(1000 + seed)
+    def name():
+        if rnd.random() < 0.1: return b'\0'
+        labs = [bytes(rnd.choice(b'abcdefghijklmnopqrstuvwxyz0123456789-') for _ in range(rnd.randint(1, 12))) for _ in range(rnd.randint(1, 4))]
+        return b''.join(bytes([len(l)]) + l for l in labs) + b'\0'
+    out = []
+    d = R.Driver(repo)
+    try:
+        d.cfg(mac=R.MAC)
+        for k in range(n):
+            kind = rnd.choice(['ina', 'ina', 'ina', 'multi', 'other-type', 'other-class', 'truncated', 'opcode'])
+            qid = rnd.randint(0x0100, 0xffff)
+            opcode = rnd.randint(1, 15) if kind == 'opcode' else 0
+            rd = rnd.randint(0, 1)
+            nq = rnd.randint(2, 3) if kind == 'multi' else 1
+            qs = [(name(), 1, 1) for _ in range(nq)]
+            if kind == 'other-type': qs[-1] = (qs[-1][0], rnd.choice([2, 5, 12, 15, 16, 28, 255]), 1)
+            if kind == 'other-class': qs[-1] = (qs[-1][0], 1, rnd.choice([3, 4, 255]))
+            q = (qid, opcode, rd, qs, b'')
+            trunc = rnd.randint(1, 4) if kind == 'truncated' else 0
+            payload = dns_query_bytes(q, trunc)
+            dst = rnd.choice(['10.0.0.1', '192.168.255.254', '172.16.5.9'])
+            dport = rnd.choice([53, 53, 5353, 40000])
+            fr = R.eth(R.MAC, R.PEER, 0x0800, R.ip4('10.0.0.77', dst, 17, R.udp(rnd.randint(1024, 65535), dport, payload)))
+            r = d.frame(fr)
+            got = r[1][42:] if r[0] == 'reply' else None
+            exp = None if trunc else dns_expected(q, dst)
+            ok = got == exp
+            info = {'obligation': 'ground/C14/dns-e2e/%s' % kind, 'kind': kind}
+            if not ok:
+                info.update(frame_hex=fr.hex(), expected_payload_hex=exp.hex() if exp is not None else 'none', got_payload_hex=got.hex() if got is not None else r[0], query_hex=payload.hex(), dst_ip=dst)
+            out.append((ok, info))
+    finally:
+        d.close()
+    return out
+
 # ----------------------------------------------------------------------------- per-property driver
 def run(pid, tier, repo, build, seed):
     res = {'obligations': 0, 'discharged': 0, 'violations': [], 'undecided': [], 'details': []}
@@ -379,6 +444,21 @@ def run(pid, tier, repo, build, seed):
             same, info = g_c11_prefix(repo)
             add(same, info, 'ground/C11/identification-prefix-not-fed',
                 'the first request on a flow is answered identically however the stream is cut (witness: GET / HTTP/1.1 cut after 2 bytes)')
+        if pid == 'C14':
+            n_ = 400 if tier == 'thorough' else 80
+            rs = g_c14_dns(repo, n_, seed)
+            groups = {}
+            for ok, info in rs:
+                g_ = groups.setdefault(info['obligation'], {'n': 0, 'bad': []})
+                g_['n'] += 1
+                if not ok: g_['bad'].append(info)
+            res['bounded'] = {'what': 'DNS queries over UDP/IPv4 on the hook binary vs. the response written from the statement (every IN/A-only query answered, question echoed, one A record per question with the contacted address, nothing for other types/classes/truncated messages)',
+                              'bound': '%d pseudo-random queries (seed %d): names of 0-4 labels, 1-3 questions, opcodes 0-15, RD 0/1, 3 destination addresses, 3 ports' % (len(rs), seed),
+                              'counted_as_proved': False}
+            for name, g_ in sorted(groups.items()):
+                first = g_['bad'][0] if g_['bad'] else {}
+                add(not g_['bad'], dict(first, obligation=name, queries=g_['n'], mismatches=len(g_['bad'])), name,
+                    'BOUNDED: DNS responses for this class of query equal the response the statement asks for (%d sampled)' % g_['n'], bounded=True)
         if pid == 'C20':
             rs = g_c20_lines(repo)
             res['bounded'] = {'what': 'real ConsoleLogger/LogfmtLogger output on the hook binary: line syntax, recv/terminal nesting, eth send iff reply, printed addresses (stand-in for the logger code that is only a shim in the Verus units)',
@@ -448,7 +528,10 @@ def replay(pid, path, repo, build):
         print('frame    %s' % w['frame_hex'])
         print('expected %s' % w['expected_payload_hex'])
         print('got      %s' % got)
-        bad = got != w['expected_payload_hex']
+        if w['expected_payload_hex'] == 'none':
+            bad = r[0] == 'reply'
+        else:
+            bad = got != w['expected_payload_hex']
         print('REPRODUCED' if bad else 'not reproduced')
         return 1 if bad else 0
     print(json.dumps(w, indent=1))
